@@ -21,15 +21,12 @@ package reflectx
 // ---- struct field iteration (C11) ------------------------------------------------------------------------------------
 // ForEachFieldV2 is the combinator under Meta.scanFields. Its callback type carries the scanning contract: while a
 // Meta is being scanned (ghost ScanTarget), an acceptor only ever appends well-formed fields to that Meta.
-//   VisitLen / VisitAt: ghost trace of the field indices handed to the acceptor.
-//@ ghost var VisitLen int
-//@ ghost var VisitAt map[int]int
 
 //@ functype FieldAcceptor
 //@ property C11
 //@ requires [scanning] ScanTarget != nil && FieldsInv(ScanTarget)
 //@ requires [field-descriptor] field.Type != nil && RTypeOf(value) == field.Type
-//@ assigns ScanTarget.Fields, VisitLen, VisitAt
+//@ assigns ScanTarget.Fields
 //@ ensures [fields-inv-kept] FieldsInv(ScanTarget)
 //@ ensures [fields-only-grow] len(ScanTarget.Fields) >= len(old(ScanTarget.Fields)) && forall(k, int, implies(0 <= k && k < len(old(ScanTarget.Fields)), ScanTarget.Fields[k] == old(ScanTarget.Fields[k])))
 
@@ -43,14 +40,11 @@ package reflectx
 //@ requires [typed-value] t != nil && t == RTypeOf(v) && implies(t.Kind() == 22, t.Elem() != nil)
 //@ requires [scanning] ScanTarget != nil && FieldsInv(ScanTarget)
 //@ requires [all-fields] !excludePrivateField
-//@ assigns ScanTarget.Fields, VisitLen, VisitAt
-//@ let v0 = VisitLen
+//@ assigns ScanTarget.Fields
 //@ let st = ite(t.Kind() == 22, t.Elem(), t)
 //@ ensures [fields-inv-kept] FieldsInv(ScanTarget)
 //@ ensures [fields-only-grow] len(ScanTarget.Fields) >= len(old(ScanTarget.Fields)) && forall(k, int, implies(0 <= k && k < len(old(ScanTarget.Fields)), ScanTarget.Fields[k] == old(ScanTarget.Fields[k])))
 //@ ensures [non-struct-skipped] implies(st.Kind() != 25, result == nil && ScanTarget.Fields == old(ScanTarget.Fields))
-//@ ghost before call @f: VisitAt = store(VisitAt, VisitLen, i)
-//@ ghost before call @f: VisitLen = VisitLen + 1
 //@ loop 1 decreases RNumField(t) - i
 //@ loop 1 invariant [index] 0 <= i && i <= RNumField(t) && t.Kind() == 25 && t == RTypeOf(v) && t != nil
 //@ loop 1 invariant [fields-inv-kept] FieldsInv(ScanTarget)
